@@ -1,11 +1,11 @@
 SPECIFICATION Spec
 CONSTANTS
-  Items = {"QA", "QP", "QT", "RA", "RZ", "RL", "RH", "RN", "RS", "N1", "PH"}
+  Items = {"QA", "QP", "QT", "RA", "RZ", "RL", "RH", "RS", "N1"}
   MaxItems = 3
   QdSet = {0, 1, 2}
-  AnSet = {0, 1, 2, 65535}
+  AnSet = {0, 1, 65535}
   NsSet = {0, 1}
-  ArSet = {0, 1}
+  ArSet = {0}
   CutAll = FALSE
 INVARIANTS RefConsistent RefErrHasClass SizeLaw
 CONSTRAINT Emit
